@@ -21,6 +21,14 @@ def _corpus(P):
     return out
 
 
+GEN_OBLIGATION = {
+    'QuantityImpl': 'Proofs/GenQuantityEq.vo', 'OpsImpl': 'Proofs/GenOpsEq.vo',
+    'MoneyConvImpl': 'Proofs/GenMoneyConvEq.vo', 'ConvStackImpl': 'Proofs/GenConvStackEq.vo',
+    'HashImpl': 'Proofs/GenHashEq.vo', 'EffectsImpl': 'Proofs/EffectsAtomic.vo',
+    'RoundingImpl': 'Proofs/RoundingImplSpec.vo',
+}
+
+
 def run_check(P, tier, replay=None):
     t0 = time.time()
     pid = P.PID
@@ -39,12 +47,19 @@ def run_check(P, tier, replay=None):
     if deps is None:
         deps = core.gen_deps(roots)      # everything the Coq files import, transitively
     gen_fail = [g for g in gen_fail if g[0] in deps]
+    # a generated model part a property depends on comes with its obligation: the proof that
+    # the generated object equals (or, for effect programs, satisfies) what the theorems are about
+    proof_targets = list(P.PROOF_TARGETS)
+    for g in deps:
+        t = GEN_OBLIGATION.get(g)
+        if t and t not in proof_targets:
+            proof_targets.append(t)
     # 2. build
     with core.BuildLock():
         # the executable model + correspondence harness first, then the proofs:
         # a broken proof must not stop the model from running
         build_ok, build_log = core.make(P.MODEL_TARGETS)
-        proofs_ok, proofs_log = core.make(P.PROOF_TARGETS)
+        proofs_ok, proofs_log = core.make(proof_targets)
         # 3. property theorems
         pf = None
         if proofs_ok:
